@@ -4,11 +4,12 @@ open Proto Framing DriverFraming
 
 /-- messages before the first source error / oversized message, and the expected final code -/
 def okPrefix (c : EncCase) : List Bytes × Option Nat :=
-  let rec go : List (SrcEv Bytes) → List Bytes × Option Nat
+  let rec go : List (SrcEv EMsg) → List Bytes × Option Nat
     | [] => ([], none)
     | .pending :: r => go r
     | .err st :: _ => ([], some st.code)
-    | .item m :: r =>
+    | .item (_, true) :: _ => ([], some 13)     -- `Encoder::encode` fails: INTERNAL, nothing of the item is sent
+    | .item (m, false) :: r =>
       let p := if c.cfg.comp.isSome then (tableCodec c.tab).cz .gzip m else m
       let over : Bool := match c.cfg.maxSize with | some l => decide (p.length > l) | none => false
       if over then ([], some 11) else
